@@ -168,6 +168,11 @@ Section Chain.
     inv_mem : forall x, In x st -> P x
   }.
 
+  Lemma desc_head2 b a t : desc (b :: a :: t) -> R a b.
+  Proof.
+    intros H. inversion H as [|? ? _ Hf]; subst. inversion Hf; assumption.
+  Qed.
+
   (* what the while loop guarantees on exit *)
   Definition exit_ok (c : pt) (st : list pt) : Prop :=
     forall b a t, st = b :: a :: t -> cross a b c > 0.
@@ -311,7 +316,7 @@ Section Chain.
                 ** subst p. apply (R_irrefl a Hr).
                 ** apply (R_irrefl a). eapply R_trans; eauto.
              ++ apply (geoB a' a c p).
-                ** rewrite E in Hd'. inversion Hd' as [|? ? _ Hf]; subst. inversion Hf; assumption.
+                ** apply (desc_head2 a a' l2). rewrite <- E. exact Hd'.
                 ** apply Hc'. rewrite E. left; reflexivity.
                 ** exact Hr.
                 ** apply (He' [] a a' l2 E p Hp).
@@ -334,10 +339,11 @@ Section Chain.
     Inv (fun p => P p \/ In p l) (fold_left push l st).
   Proof.
     induction l as [|c l IH]; intros P st HI Hs Hlt; cbn [fold_left].
-    - destruct HI. constructor; try assumption; intros; try tauto.
-      + intros l1 b a l2 E p [Hp|[]]. eapply inv_edges0; eauto.
-      + destruct H as [H|[]]; auto.
-      + destruct H as [H|[]]; auto.
+    - destruct HI as [H1 H2 H3 H4 H5 H6 H7]. constructor; try assumption.
+      + intros l1 b a l2 E p [Hp|[]]. eapply H4; eauto.
+      + intros p [Hp|[]]. auto.
+      + intros p [Hp|[]]. auto.
+      + intros x Hx. left. auto.
     - inversion Hs as [|? ? Hs' Hf]; subst. rewrite Forall_forall in Hf.
       assert (HI' : Inv (fun p => p = c \/ P p) (push st c)).
       { apply push_inv; [exact HI|]. intros p Hp. apply (Hlt c p); [left; reflexivity|exact Hp]. }
